@@ -162,11 +162,18 @@ def sweep_use(tier, seed):
         'y=t2, x=t1': lambda b: Use.from_func(func=Use.from_func(func=ratio, task=b[1], key='result', kwarg='y'), task=b[0], key='result', kwarg='x'),
         'pos(t1), x=t2': lambda b: Use.from_func(func=Use.from_func(func=ratio, task=b[0], key='result'), task=b[1], key='result', kwarg='x'),
         'pos(t2), x=t1': lambda b: Use.from_func(func=Use.from_func(func=ratio, task=b[1], key='result'), task=b[0], key='result', kwarg='x'),
+        # the SAME task injected twice under two different keys (stdout and stderr of one run): each argument gets the key it was asked for
+        'x=t1.result, y=t1.a': lambda b: Use.from_func(func=Use.from_func(func=ratio, task=b[0], key='result', kwarg='x'), task=b[0], key='a', kwarg='y'),
+        'x=t1.a, y=t1.result': lambda b: Use.from_func(func=Use.from_func(func=ratio, task=b[0], key='a', kwarg='x'), task=b[0], key='result', kwarg='y'),
+        'pos(t1.a), x=t1.result': lambda b: Use.from_func(func=Use.from_func(func=ratio, task=b[0], key='a'), task=b[0], key='result', kwarg='x'),
+        'pos(t1.result), pos(t1.a)': lambda b: Use.from_func(func=Use.from_func(func=ratio, task=b[0], key='result'), task=b[0], key='a'),
     }
     want = {'pos(t1), pos(t2)': ('ratio', ('r1', 'r2'), ()), 'pos(t2), pos(t1)': ('ratio', ('r2', 'r1'), ()),
             'x=t1, y=t2': ('ratio', (), (('x', 'r1'), ('y', 'r2'))), 'x=t2, y=t1': ('ratio', (), (('x', 'r2'), ('y', 'r1'))),
             'y=t2, x=t1': ('ratio', (), (('x', 'r1'), ('y', 'r2'))),
-            'pos(t1), x=t2': ('ratio', ('r1',), (('x', 'r2'),)), 'pos(t2), x=t1': ('ratio', ('r2',), (('x', 'r1'),))}
+            'pos(t1), x=t2': ('ratio', ('r1',), (('x', 'r2'),)), 'pos(t2), x=t1': ('ratio', ('r2',), (('x', 'r1'),)),
+            'x=t1.result, y=t1.a': ('ratio', (), (('x', 'r1'), ('y', 'a1'))), 'x=t1.a, y=t1.result': ('ratio', (), (('x', 'a1'), ('y', 'r1'))),
+            'pos(t1.a), x=t1.result': ('ratio', ('a1',), (('x', 'r1'),)), 'pos(t1.result), pos(t1.a)': ('ratio', ('r1', 'a1'), ())}
     same_request = {frozenset(('x=t1, y=t2', 'y=t2, x=t1'))}      # keyword injections form a mapping: the order of decoration is not part of the request
     for la, lb in itertools.permutations(chains, 2):
         n += 1
@@ -209,7 +216,7 @@ def sweep_use(tier, seed):
     return {'name': 'use-requests-native', 'evaluations': n, 'distinct': n, 'failures': fails[:8], 'exhaustive': tier != 'quick',
             'bound': f'pairs of Use.from_func requests over 5 functions (two with the same __name__, two lambdas) x 2 injected tasks x keys {{result, a}} x '
                      f'hard/soft x positional/keyword ({len(reqs)} requests); every identical pair, {"1500 sampled" if tier == "quick" else "all"} different pairs; '
-                     'the generated tasks are executed and compared with the request; 7 double injections (both positional orders, both keyword assignments, mixed), all ordered pairs', 'samples': [{'requests': ['f|t1|result|hard|pos', 'f_same_name|t1|result|hard|pos']}]}
+                     'the generated tasks are executed and compared with the request; 11 double injections (both positional orders, both keyword assignments, mixed, one task injected twice under two keys), all ordered pairs', 'samples': [{'requests': ['f|t1|result|hard|pos', 'f_same_name|t1|result|hard|pos']}]}
 
 
 def sweep_factory(tier, seed):
